@@ -13,7 +13,7 @@ func init() {
 	register(&PropDef{
 		ID:    "C16",
 		Pkgs:  []string{tr},
-		Claim: "Decides the structural part: the control buffer's queue, closed flag, waiting flag and throttle counter are accessed only under its mutex; the throttle channel is created exactly on the increment that makes the count equal the limit and closed exactly on the dequeue performed while the count equals the limit (same limit, equality on both sides, count changed only for throttled items); every close of the throttle channel is on a pointer obtained by an atomic swap to nil; a closed buffer rejects new items with ErrConnClosing; finish is idempotent, orphans queued client headers and releases a blocked throttler; the throttling classification of every control item type is the reviewed table; throttle and get can always escape through the transport's done channel.",
+		Claim: "Decides the structural part: the control buffer's queue, closed flag, waiting flag and throttle counter are accessed only under its mutex; the throttle channel is created exactly on the increment that makes the count equal the limit and closed exactly on the dequeue performed while the count equals the limit (same limit, equality on both sides, count changed only for throttled items); every close of the throttle channel is on a pointer obtained by an atomic swap to nil; a closed buffer rejects new items with ErrConnClosing; finish is idempotent, orphans queued client headers and releases a blocked throttler; the throttling classification of every control item type is the reviewed table; throttle and get can always escape through the transport's done channel. Hand-over between producers and the consumer is decided structurally: put enqueues every non-nil item past the closed/callback tests, a consumer that announced waiting is signalled after the enqueue on every path, get sleeps only with no frame, no error and block=true, getOnceLocked dequeues only from a non-empty list, finish walks the drained list to its end, throttle dereferences the throttle channel only when one exists.",
 		NotDecided:  []string{"absence of lost wake-ups and deadlock over all schedules (liveness)", "that the reader calls throttle() before every frame read (decided per reader under C11/C12)"},
 		Assumptions: []string{"atomic.Pointer Swap/Load/Store semantics"},
 		Technique:   "static analysis: must-lockset, dominating guards on go/ssa branch facts, who-may-write, once-only close via swap origin, exhaustive table of interface implementations, select-arm inspection",
